@@ -1,1 +1,285 @@
-//! (to be filled)
+//! Table family: EnumTable. Checker for C10 (stateful, Vec model).
+
+use crate::*;
+use proptest::prelude::*;
+use serde_json::json;
+
+pub trait TGlue: Glue {
+    type Tb: Clone + PartialEq;
+    /// `Table::new(v0, v1, ..)` with one argument per enabled variant, in declaration order
+    fn new_seq(vals: &[i64]) -> Self::Tb;
+    fn filled(x: i64) -> Self::Tb;
+    /// f receives the declaration index of the key
+    fn from_closure(f: &dyn Fn(usize) -> i64) -> Self::Tb;
+    fn transform(t: &Self::Tb, f: &dyn Fn(usize, i64) -> i64) -> Self::Tb;
+    /// t[key with declaration index k]
+    fn get(t: &Self::Tb, k: usize) -> i64;
+    fn set(t: &mut Self::Tb, k: usize, v: i64);
+    fn all(opts: &[Option<i64>]) -> Option<Self::Tb>;
+    fn all_ok(rs: &[Result<i64, i64>]) -> Result<Self::Tb, i64>;
+}
+
+#[derive(Clone, Debug, PartialEq)]
+pub enum TOp {
+    Write(usize, i64),
+    Snapshot,
+    Compare,
+}
+
+impl TOp {
+    fn show(&self) -> String {
+        match self {
+            TOp::Write(k, v) => format!("write({},{})", k, v),
+            TOp::Snapshot => "snapshot".into(),
+            TOp::Compare => "compare".into(),
+        }
+    }
+    fn parse(s: &str) -> TOp {
+        if s == "snapshot" {
+            TOp::Snapshot
+        } else if s == "compare" {
+            TOp::Compare
+        } else {
+            let inner = &s[6..s.len() - 1];
+            let mut it = inner.split(',');
+            TOp::Write(it.next().unwrap().parse().unwrap(), it.next().unwrap().parse().unwrap())
+        }
+    }
+}
+
+struct TSt<T: Clone> {
+    t: T,
+    m: Vec<i64>,
+    snap: Option<(T, Vec<i64>)>,
+}
+
+fn read_all<E: TGlue>(en: &[usize], t: &E::Tb) -> Result<Vec<i64>, String> {
+    catch(|| en.iter().map(|&k| E::get(t, k)).collect())
+}
+
+/// en: declaration indices of enabled variants; ops address positions in `en`
+fn apply<E: TGlue>(en: &[usize], st: &mut TSt<E::Tb>, op: &TOp) -> Result<(), (String, String, String)> {
+    match op {
+        TOp::Write(p, v) => {
+            let p = p % en.len();
+            if let Err(e) = catch(|| E::set(&mut st.t, en[p], *v)) {
+                return Err(("table:write-panicked".into(), "no panic".into(), e));
+            }
+            st.m[p] = *v;
+            match read_all::<E>(en, &st.t) {
+                Ok(got) if got == st.m => {}
+                Ok(got) => return Err(("table:read-after-write".into(), format!("{:?}", st.m), format!("{:?}", got))),
+                Err(e) => return Err(("table:read-panicked".into(), format!("{:?}", st.m), e)),
+            }
+        }
+        TOp::Snapshot => {
+            st.snap = Some((st.t.clone(), st.m.clone()));
+        }
+        TOp::Compare => {
+            if let Some((ts, ms)) = &st.snap {
+                let eq = st.t == *ts;
+                if eq != (st.m == *ms) {
+                    return Err(("table:eq".into(), format!("== is {}", st.m == *ms), format!("== is {}", eq)));
+                }
+                // the snapshot itself is independent of later writes
+                match read_all::<E>(en, ts) {
+                    Ok(got) if &got == ms => {}
+                    other => return Err(("table:clone-not-independent".into(), format!("{:?}", ms), format!("{:?}", other))),
+                }
+            }
+        }
+    }
+    Ok(())
+}
+
+fn run_hist<E: TGlue>(en: &[usize], h: &[TOp]) -> Result<(), (String, String, String)> {
+    let init: Vec<i64> = (0..en.len() as i64).map(|i| 50 + i).collect();
+    let mut st: TSt<E::Tb> = TSt { t: E::new_seq(&init), m: init, snap: None };
+    for op in h {
+        apply::<E>(en, &mut st, op)?;
+    }
+    Ok(())
+}
+
+fn nontrivial_hist(h: &[TOp]) -> bool {
+    let mut ws: Vec<(usize, i64)> = vec![];
+    for o in h {
+        if let TOp::Write(k, v) = o {
+            ws.push((*k, *v));
+        }
+    }
+    ws.iter().any(|a| ws.iter().any(|b| a.0 != b.0 && a.1 != b.1))
+}
+
+fn dfs<E: TGlue>(ctx: &mut Ctx, en: &[usize], alpha: &[TOp], st: &TSt<E::Tb>, h: &mut Vec<TOp>, depth: usize, count: &mut u64) -> bool {
+    for op in alpha {
+        let mut s2 = TSt { t: st.t.clone(), m: st.m.clone(), snap: st.snap.clone() };
+        h.push(op.clone());
+        *count += 1;
+        if nontrivial_hist(h) {
+            ctx.nontrivial(format!("{:?}", h).as_bytes());
+        }
+        if let Err((k, e, a)) = apply::<E>(en, &mut s2, op) {
+            ctx.fail(&k, json!({"history": h.iter().map(|o| o.show()).collect::<Vec<_>>(), "n_enabled": en.len()}), e, a);
+            h.pop();
+            return false;
+        }
+        if h.len() < depth && !dfs::<E>(ctx, en, alpha, &s2, h, depth, count) {
+            h.pop();
+            return false;
+        }
+        h.pop();
+    }
+    true
+}
+
+pub fn c10<E: TGlue>(ctx: &mut Ctx) {
+    let spec = ctx.spec;
+    let en = spec.enabled_indices();
+    let n = en.len();
+    let mask: String = spec.variants.iter().map(|v| if v.disabled() { 'd' } else { 'E' }).collect();
+    if let Some(r) = ctx.replay().cloned() {
+        if let Some(hs) = r["history"].as_array() {
+            let h: Vec<TOp> = hs.iter().map(|s| TOp::parse(s.as_str().unwrap())).collect();
+            ctx.eval();
+            if let Err((k, e, a)) = run_hist::<E>(&en, &h) {
+                ctx.fail(&k, json!({"history": hs, "n_enabled": n}), e, a);
+            }
+            return;
+        }
+    }
+    let inp = |what: &str| json!({"op": what, "mask": mask, "idents": spec.variants.iter().map(|v| v.ident.clone()).collect::<Vec<_>>()});
+    // constructors
+    let seq: Vec<i64> = (0..n as i64).map(|i| 10 + i).collect();
+    ctx.eval();
+    match catch(|| read_all::<E>(&en, &E::new_seq(&seq))) {
+        Ok(Ok(got)) if got == seq => {}
+        other => ctx.fail("table:new-order", inp("new(10, 11, ..)"), format!("{:?}", seq), format!("{:?}", other)),
+    }
+    ctx.eval();
+    match read_all::<E>(&en, &E::filled(77)) {
+        Ok(got) if got == vec![77; n] => {}
+        other => ctx.fail("table:filled", inp("filled(77)"), format!("{:?}", vec![77; n]), format!("{:?}", other)),
+    }
+    ctx.eval();
+    let log = std::cell::RefCell::new(Vec::<usize>::new());
+    let f = |k: usize| {
+        log.borrow_mut().push(k);
+        1000 + 7 * k as i64
+    };
+    let want: Vec<i64> = en.iter().map(|&k| 1000 + 7 * k as i64).collect();
+    match read_all::<E>(&en, &E::from_closure(&f)) {
+        Ok(got) if got == want => {}
+        other => ctx.fail("table:from_closure", inp("from_closure(k -> 1000 + 7 * index(k))"), format!("{:?}", want), format!("{:?}", other)),
+    }
+    if log.borrow().iter().any(|k| !en.contains(k)) {
+        ctx.fail("table:from_closure-called-with-disabled", inp("from_closure"), format!("keys within {:?}", en), format!("{:?}", log.borrow()));
+    }
+    ctx.eval();
+    let base = E::new_seq(&seq);
+    let want: Vec<i64> = en.iter().enumerate().map(|(p, &k)| 100 * k as i64 + seq[p]).collect();
+    match read_all::<E>(&en, &E::transform(&base, &|k, v| 100 * k as i64 + v)) {
+        Ok(got) if got == want => {}
+        other => ctx.fail("table:transform", inp("transform((k, v) -> 100 * index(k) + v)"), format!("{:?}", want), format!("{:?}", other)),
+    }
+    // transform leaves the source untouched
+    if read_all::<E>(&en, &base) != Ok(seq.clone()) {
+        ctx.fail("table:transform-mutated-source", inp("transform"), format!("{:?}", seq), format!("{:?}", read_all::<E>(&en, &base)));
+    }
+    // all(): every Some/None mask; all_ok(): every Ok/Err mask, first Err in declaration order
+    let nm = 1u64 << n;
+    for m in 0..nm {
+        ctx.eval();
+        ctx.nontrivial(format!("{}/mask/{}", spec.name, m).as_bytes());
+        let opts: Vec<Option<i64>> = (0..n).map(|i| if (m >> i) & 1 == 1 { None } else { Some(20 + i as i64) }).collect();
+        let want = if m == 0 { Some(opts.iter().map(|o| o.unwrap()).collect::<Vec<_>>()) } else { None };
+        let got = E::all(&opts).map(|t| read_all::<E>(&en, &t));
+        let ok = match (&got, &want) {
+            (None, None) => true,
+            (Some(Ok(g)), Some(w)) => g == w,
+            _ => false,
+        };
+        if !ok {
+            ctx.fail("table:all", json!({"op": "all", "mask": mask, "options": format!("{:?}", opts)}), format!("{:?}", want), format!("{:?}", got));
+        }
+        let rs: Vec<Result<i64, i64>> = (0..n).map(|i| if (m >> i) & 1 == 1 { Err(-(i as i64) - 1) } else { Ok(20 + i as i64) }).collect();
+        let want_err = rs.iter().find_map(|r| r.err());
+        let got = E::all_ok(&rs).map(|t| read_all::<E>(&en, &t));
+        let ok = match (&got, want_err) {
+            (Err(e), Some(w)) => *e == w,
+            (Ok(Ok(g)), None) => g == &rs.iter().map(|r| r.unwrap()).collect::<Vec<_>>(),
+            _ => false,
+        };
+        if !ok {
+            ctx.fail("table:all_ok", json!({"op": "all_ok", "mask": mask, "results": format!("{:?}", rs)}), format!("first Err in declaration order: {:?}", want_err), format!("{:?}", got));
+        }
+    }
+    ctx.exhaustive("all Some/None and Ok/Err masks (2^n each)", 2 * nm);
+    // disabled keys panic
+    for (k, v) in spec.variants.iter().enumerate() {
+        if v.disabled() {
+            ctx.eval();
+            let t = E::new_seq(&seq);
+            if catch(|| E::get(&t, k)).is_ok() {
+                ctx.fail("table:index-disabled-no-panic", inp(&format!("table[{}]", v.ident)), "panic".into(), "returned a value".into());
+            }
+            let mut t2 = E::new_seq(&seq);
+            if catch(|| E::set(&mut t2, k, 5)).is_ok() {
+                ctx.fail("table:index_mut-disabled-no-panic", inp(&format!("table[{}] = 5", v.ident)), "panic".into(), "write accepted".into());
+            }
+        }
+    }
+    if ctx.failed() {
+        return;
+    }
+    // exhaustive histories for small n
+    if n <= ctx.param("exhaustive_max_n", 4) as usize {
+        let mut alpha: Vec<TOp> = Vec::new();
+        for p in 0..n {
+            for v in [0i64, 1, 2] {
+                alpha.push(TOp::Write(p, v));
+            }
+        }
+        alpha.push(TOp::Snapshot);
+        alpha.push(TOp::Compare);
+        let depth = ctx.param("depth", 4) as usize;
+        let init: Vec<i64> = (0..n as i64).map(|i| 50 + i).collect();
+        let st: TSt<E::Tb> = TSt { t: E::new_seq(&init), m: init, snap: None };
+        let mut h = Vec::new();
+        let mut count = 0;
+        dfs::<E>(ctx, &en, &alpha, &st, &mut h, depth, &mut count);
+        ctx.evals(count);
+        ctx.exhaustive(&format!("all write/snapshot/compare histories up to length {} over all keys x values {{0,1,2}} (n <= 4)", depth), count);
+        if ctx.failed() {
+            return;
+        }
+    }
+    // long random histories
+    let strat = proptest::collection::vec(prop_oneof![8 => (0..n.max(1), -3i64..1000).prop_map(|(k, v)| TOp::Write(k, v)), 1 => Just(TOp::Snapshot), 2 => Just(TOp::Compare)], 0..48).boxed();
+    let seed = ctx.seed;
+    let cases = ctx.param("cases", 300) as u32;
+    let mut first: Option<Vec<TOp>> = None;
+    let shrunk = {
+        let mut f = |h: &Vec<TOp>, counting: bool| -> Option<String> {
+            if counting {
+                ctx.eval();
+                if nontrivial_hist(h) {
+                    ctx.nontrivial(format!("{:?}", h).as_bytes());
+                }
+                if first.is_none() && h.len() > 4 {
+                    first = Some(h.clone());
+                }
+            }
+            run_hist::<E>(&en, h).err().map(|x| x.0)
+        };
+        prop_run(seed, cases, &strat, &mut f)
+    };
+    if let Some(h) = first {
+        ctx.sample(json!({"enum": spec.name, "mask": mask, "history": h.iter().map(|o| o.show()).collect::<Vec<_>>()}));
+    }
+    if let Some(h) = shrunk {
+        if let Err((k, e, a)) = run_hist::<E>(&en, &h) {
+            ctx.fail(&k, json!({"history": h.iter().map(|o| o.show()).collect::<Vec<_>>(), "n_enabled": n, "shrunk": true}), e, a);
+        }
+    }
+}
